@@ -345,6 +345,10 @@ pub mod vmrec {
         cap: usize,
         owner: Option<std::thread::ThreadId>,
         truncated: bool,
+        /// identity of the engine under test (VmEvent::engine); events of other engines on the same OS
+        /// thread (the macro expander's kernel engine) are not part of the trace
+        engine: usize,
+        learn: bool,
     }
     static REC: Mutex<Option<Rec>> = Mutex::new(None);
 
@@ -360,14 +364,26 @@ pub mod vmrec {
         };
         let f = std::fs::OpenOptions::new().create(true).append(true).open(path).expect("vm trace file");
         *REC.lock().unwrap() = Some(Rec { out: Some(std::io::BufWriter::new(f)), codes: HashMap::new(), marks: HashMap::new(),
-                                          count: 0, cap, owner: None, truncated: false });
+                                          count: 0, cap, owner: None, truncated: false, engine: 0, learn: false });
         steel::verif::install_vm(Some(hook));
         true
     }
 
-    pub fn begin_case(id: &str) {
+    pub fn begin_case(id: &str, e: &mut steel::steel_vm::engine::Engine) {
+        // learn the identity of this engine: the first event of a trivial evaluation
+        {
+            let mut g = REC.lock().unwrap();
+            if let Some(r) = g.as_mut() {
+                r.learn = true;
+                r.owner = Some(std::thread::current().id());
+            }
+        }
+        ACTIVE.store(true, Ordering::SeqCst);
+        let _ = e.compile_and_run_raw_program("1".to_string());
+        ACTIVE.store(false, Ordering::SeqCst);
         let mut g = REC.lock().unwrap();
         if let Some(r) = g.as_mut() {
+            r.learn = false;
             r.codes.clear();
             r.marks.clear();
             r.count = 0;
@@ -418,6 +434,7 @@ pub mod vmrec {
             steel::verif::VM_CAPTURE => "capture",
             steel::verif::VM_INVOKE => "invoke",
             steel::verif::VM_HANDLER_FRAME => "hframe",
+            steel::verif::VM_APPLY => "apply",
             _ => "other",
         }
     }
@@ -429,6 +446,16 @@ pub mod vmrec {
         let mut g = REC.lock().unwrap();
         let Some(r) = g.as_mut() else { return };
         if r.owner != Some(std::thread::current().id()) {
+            return;
+        }
+        if r.learn {
+            // a top-level run of the engine under test (the expander's engine is only ever called into)
+            if ev.kind == steel::verif::VM_ENTER && ev.depth == 0 {
+                r.engine = ev.engine;
+            }
+            return;
+        }
+        if ev.engine != r.engine {
             return;
         }
         if r.count >= r.cap {
